@@ -10,11 +10,13 @@ spec -> code   every state and edge TLC explores is emitted (expected result of 
                emitted composition
 code -> spec   seeded random edit histories on the real trees, validated by TLC event by event (Inventory_trace)
 """
+import concurrent.futures
 import contextlib
 import json
 import os
 import random
 import re
+import threading
 from fractions import Fraction
 
 from harness import common, tlc, tracecheck
@@ -34,6 +36,7 @@ WEIGHT_FREE_OBS = ("vol", "nucs", "nd", "atoms")
 LMAX, VMAX = 20000, 100  # the model's bound on magnitudes (cfg constants LMax / VMax); the trace driver stays inside it
 _SELFTEST = False
 _TLC_CACHE = {}
+_TLC_LOCK = threading.Lock()
 
 
 # ------------------------------------------------------------------------------------------------------------
@@ -88,9 +91,32 @@ def constants_of(cfg):
 def run_tlc(module, cfg, env, **kw):
     """TLC's output does not depend on armi: cache it per (cfg, env) inside one process (selftest runs many mutants)."""
     key = (module, cfg, tuple(sorted(env.items())), tuple(sorted(kw.items())))
-    if key not in _TLC_CACHE:
-        _TLC_CACHE[key] = tlc.run(module, cfg, MODDIR, env=env, timeout=3000, **kw)
-    return _TLC_CACHE[key]
+    with _TLC_LOCK:
+        job = _TLC_CACHE.get(key)
+        if job is None:
+            job = _TLC_CACHE[key] = {"lock": threading.Lock()}
+    with job["lock"]:  # a prefetching thread may be computing this very run: wait for it instead of starting a second JVM
+        if "res" not in job and "exc" not in job:
+            try:
+                job["res"] = tlc.run(module, cfg, MODDIR, env=env, timeout=3000, **kw)
+            except BaseException as ex:  # noqa: BLE001  re-raised in the thread that asks for the result
+                job["exc"] = ex
+    if "exc" in job:
+        raise job["exc"]
+    return job["res"]
+
+
+def prefetch(pool, jobs):
+    """TLC's runs do not depend on armi or on each other: start them all at once (the consumers below find them in the cache)."""
+    for module, cfg, env, kw in jobs:
+        pool.submit(_quiet, run_tlc, module, cfg, env, **kw)
+
+
+def _quiet(fn, *a, **kw):
+    try:
+        return fn(*a, **kw)
+    except BaseException:  # noqa: BLE001  kept in the cache entry, raised where the result is consumed
+        return None
 
 
 def violations_of(res):
@@ -474,7 +500,7 @@ except AttributeError as ex:
 def area_cache(rep):
     ad = AreaAdapter()
     chosen, first_divs = None, None
-    for v in ("asis", "keyed"):
+    for v in ("keyed", "asis"):
         res = run_tlc("AreaCache", "AreaCache_emit.cfg", {"C02_AREAKEY": v}, workers=1, coverage=False, extra=("-continue",))
         edges = [dict(p, obs={"act": p["to"]["act"]}) for p in res.prints if isinstance(p, dict) and "act" in p and "to" in p]
         g = rp.Graph(edges)
@@ -569,11 +595,11 @@ def replay_config(rep, cfg, env, families, label, max_edges=None, seed=0, weight
     return names, tree
 
 
-DESIGNS = (  # tried in this order; the first is the code as it is
-    {"C02_LEAFVOL": "full", "C02_SCALE": "raises"},
-    {"C02_LEAFVOL": "cut", "C02_SCALE": "raises"},
+DESIGNS = (  # tried in this order (the order only matters for speed: the first one is prefetched)
     {"C02_LEAFVOL": "full", "C02_SCALE": "ok"},
     {"C02_LEAFVOL": "cut", "C02_SCALE": "ok"},
+    {"C02_LEAFVOL": "full", "C02_SCALE": "raises"},
+    {"C02_LEAFVOL": "cut", "C02_SCALE": "raises"},
 )
 
 
@@ -598,9 +624,24 @@ def choose_designs(rep):
 
 def run(rep, tier, seed):
     thorough = tier == "thorough"
-    armi_ready()
-    for m in ("Inventory_mc", "Inventory_trace", "AreaCache"):
-        tlc.sany(m, MODDIR)
+    suffix = "_thorough" if thorough else ""
+    mc = ["Inventory_core_mc%s.cfg" % suffix] + (["Inventory_blk_mc_thorough.cfg", "Inventory_edge_mc_thorough.cfg", "Inventory_core_geom_mc.cfg",
+                                                  "Inventory_core_inv_thorough.cfg", "Inventory_edge_inv_thorough.cfg"] if thorough else [])
+    emit = ["Inventory_core_acct.cfg", "Inventory_blk_acct.cfg", "Inventory_edge_acct.cfg", "Inventory_core_geom_emit%s.cfg" % suffix] + (
+        ["Inventory_blk_emit_thorough.cfg", "Inventory_core_emit_thorough.cfg"] if thorough else [])
+    pool = concurrent.futures.ThreadPoolExecutor(max_workers=8 if not thorough else 5)
+    sanys = [pool.submit(tlc.sany, m, MODDIR) for m in ("Inventory_mc", "Inventory_trace", "AreaCache")]
+    env0 = dict(DESIGNS[0])
+    jobs = [("AreaCache", "AreaCache_emit.cfg", {"C02_AREAKEY": "keyed"}, dict(workers=1, coverage=False, extra=("-continue",)))]
+    jobs += [("Inventory_mc", c, env0, dict(workers=1, coverage=False)) for c in emit]
+    if not _SELFTEST:
+        jobs += [("Inventory_mc", c, env0, dict(want_prints=False, coverage=False)) for c in mc]
+        jobs += [("Inventory_mc", c, dict(env0, C02_MAXLEVEL="2"), dict(workers=1, coverage=False)) for c in mc]
+        jobs += [("Inventory_mc", "Inventory_clauses.cfg", env0, dict(workers=1, want_prints=False, coverage=False, extra=("-continue",)))]
+    prefetch(pool, jobs)
+    armi_ready()  # ~3 s of imports while the JVMs run
+    for f in sanys:
+        f.result()
     rep.exhaustive = True
 
     # 0. which documented design alternatives does the code under test implement (decided by conformance, see spec headers)
@@ -610,12 +651,17 @@ def run(rep, tier, seed):
     area_cache(rep)
     empty_density_probe(rep)
 
+    # code -> spec, first half: record the random edit histories now, let TLC validate them while the replays below run
+    pending = []
+    for tname, cfg in (("Core", "Inventory_core_trace.cfg"), ("Edge", "Inventory_edge_trace.cfg"))[: 2 if thorough else 1]:
+        tree = tree_of(run_tlc("Inventory_mc", "Inventory_%s_acct.cfg" % tname.lower(), env, workers=1, coverage=False))
+        traces = trace_driver(tree, 150 if thorough else 32, 14 if thorough else 8, seed, tname)
+        pending.append((tname, cfg, tree, traces,
+                        pool.submit(tracecheck.validate, "Inventory_trace", cfg, MODDIR, traces, timeout=3000, env=env)))
+
     # 1. exhaustive TLC: read-back clauses on every edge two edits deep (accounting clauses are checked in step 2's runs)
-    mc = ["Inventory_core_mc%s.cfg"] + (["Inventory_blk_mc%s.cfg", "Inventory_edge_mc%s.cfg", "Inventory_core_geom_mc.cfg",
-                                         "Inventory_core_inv_thorough.cfg", "Inventory_edge_inv_thorough.cfg"] if thorough else [])
     if not _SELFTEST:
         for cfg in mc:
-            cfg = cfg % ("_thorough" if thorough else "") if "%s" in cfg else cfg
             # TLC's coverage instrumentation costs a factor ten here: the deep run goes without it, non-vacuity comes from the same
             # configuration run one edit deep with one worker and the specification's own per-action counters (every action taken
             # from the initial state is taken in the deep run too)
@@ -674,10 +720,8 @@ def run(rep, tier, seed):
         raise tlc.MachineryError("vacuous: never replayed: %s" % sorted(need - seen))
 
     # 3. code -> spec: random edit histories on the real trees, validated by TLC
-    for tname, cfg in (("Core", "Inventory_core_trace.cfg"), ("Edge", "Inventory_edge_trace.cfg"))[: 2 if thorough else 1]:
-        tree = tree_of(run_tlc("Inventory_mc", "Inventory_%s_acct.cfg" % tname.lower(), env, workers=1, coverage=False))
-        traces = trace_driver(tree, 150 if thorough else 32, 14 if thorough else 8, seed, tname)
-        bad, stats = tracecheck.validate("Inventory_trace", cfg, MODDIR, traces, timeout=3000, env=env)
+    for tname, cfg, tree, traces, fut in pending:
+        bad, stats = fut.result()
         rep.add_tlc("trace-validation:" + cfg, stats["tlc"])
         rep.add_traces("random-edit-histories:" + tname, len(traces), sum(len(t["ev"]) for t in traces),
                        "seeded random edit histories (all nine edits, any node, richer parameters than the exhaustive runs) on real trees; "
@@ -693,6 +737,7 @@ def run(rep, tier, seed):
                           "recorded history is not a behaviour of Inventory at event %d (%s) %s" % (
                               k + 1, json.dumps(a), json.dumps(b.get("mismatch", ""))[:500]),
                           {"direction": "trace", "tree": tree, "trace": b["trace"], "matched": k, "tlc": b.get("tlc")})
+    pool.shutdown(wait=False)
     rep.assume(
         "all blocks of one assembly have the same cross-section and symmetry factor (Assembly.getVolume = first-block area x total height)",
         "volume of a component 'in the model' = getVolume()/parent.getSymmetryFactor(); mass = density x volume and atom agreement are stated with it",
